@@ -107,8 +107,16 @@ func checkC09(r *core.Run) {
 		if len(call.Args) != 2 {
 			return ""
 		}
+		// (the comparison may sit in a helper of the package that is handed the images: its parameters stand for
+		// the arguments of the call in the validation function)
+		at := v
+		for _, h := range withCallees(w, v, 2)[1:] {
+			if h.Decl.Pos() <= call.Pos() && call.End() <= h.Decl.End() {
+				at = h
+			}
+		}
 		side := func(e ast.Expr) string {
-			o := origin(v, e, 4)
+			o := originVia(v, at, e, 4)
 			switch {
 			case strings.HasSuffix(o, ".BeforeImage"):
 				return "b"
